@@ -20,7 +20,7 @@ def potential_cases(strength):
     pts = [[2.0, 0.25, 0.5], [-1.5, 1.0, -0.75], [0.125, 0.25, 3.0], [0.25, 0.25, 0.125]]
     cases = [
         ("tet", ("P", 1, {}), "scalar", None, pts),
-        ("tet", ("DP", 0, {"segments": [1]}), "scalar", None, pts),
+        ("tet", ("DP", 0, {"segments": [1], "swapped_normals": [1]}), "scalar", None, pts),
         ("strip3", ("P", 1, {"segments": [1], "include_boundary_dofs": True}), "scalar", None, pts[:3]),
         ("fan4", ("DP", 1, {}), "scalar", 0.75 + 0.5j, pts[:2]),
     ]
